@@ -28,9 +28,12 @@ TrCallWhenReady == /\ IsEvent("CallWhenReady")
                    /\ CallWhenReady(Ev.args.w, ToSet(Ev.args.deps)) /\ Match
 TrListenTo == /\ IsEvent("ListenTo")
               /\ ListenTo(Ev.args.w, ToSet(Ev.args.deps)) /\ Match
-TrGoUp    == IsEvent("GoUp") /\ GoUp(Ev.args.hs, Ev.args.ur) /\ Match
+\* JSON arrays -> programs (the dependency set of a cwr operation is a set)
+ProgJ(p) == [i \in 1..Len(p) |-> Op(p[i].k, p[i].c, p[i].w, ToSet(p[i].d))]
+ProgsJ(hs) == [i \in 1..Len(hs) |-> ProgJ(hs[i])]
+TrGoUp    == IsEvent("GoUp") /\ GoUp(ProgsJ(Ev.args.hs), ProgJ(Ev.args.up)) /\ Match
 TrGetDeferral == IsEvent("GetDeferral") /\ GetDeferral /\ Match
-TrRelease == IsEvent("Release") /\ Release(Ev.args.d) /\ Match
+TrRelease == IsEvent("Release") /\ Release(Ev.args.o) /\ Match
 TrQuit    == IsEvent("Quit") /\ Quit(Ev.args.re) /\ Match
 
 TrNext == \/ TrRegister \/ TrCallWhenReady \/ TrListenTo
